@@ -28,6 +28,8 @@ var stdParts = map[string]string{
 	"lay":     `<L><%= yield %></L>`,
 	"lay2":    `<%= partial("p.html", {who: "in"}) %>{<%= yield %>}`,
 	"bad":     `<%= undefinedThing %>`,
+	"badc":    `<% cntT() %><%= undefinedThing %>`,
+	"badblk":  `<% contentFor("bb") { %><% cntT() %><%= undefinedThing %><% } %><%= contentOf("bb") %>`,
 	"failing": `x<%= fail1() %>`,
 	"synerr":  `<%= ( %>`,
 	"nested":  `<%= partial("p.html", {who: "n"}) %>!`,
